@@ -275,7 +275,13 @@ def render_fragment(frag, descs, rng, style=None, marks=None):
         rings = [e for e in closing if u in e]
         rng.shuffle(rings)
         before = (not lead) and (rng.random() < 0.5 or has_marked)
-        if not lead and before:
+        # third placement: behind the branches ("C(C)(CO)[$a]" - the descriptor belongs to the branching atom);
+        # then every child is written as a branch
+        after_branches = (not lead) and (not has_marked) and bool(descs.get(u)) and bool(tree_children[u]) \
+            and not frag.nodes[u].get("cgname") and rng.random() < 0.25
+        if after_branches:
+            before = True
+        if not lead and before and not after_branches:
             emit_descs(u, False)
         for e in rings:
             (v,) = [x for x in e if x != u]
@@ -299,6 +305,19 @@ def render_fragment(frag, descs, rng, style=None, marks=None):
         if not lead and not before:
             emit_descs(u, False)
         kids = tree_children[u]
+        if after_branches:
+            for v in kids:
+                sym = bond_symbol(u, v)
+                ms = mark_sign(u, v)
+                toks.append(render.ftok("("))
+                if ms != 0:
+                    toks.append(render.ftok("Z", "/" if ms > 0 else "\\"))
+                elif sym:
+                    toks.append(render.ftok("B", sym))
+                write(v, False)
+                toks.append(render.ftok(")"))
+            emit_descs(u, False)
+            return
         coarse = bool(frag.nodes[u].get("cgname"))
         for i, v in enumerate(kids):
             last = i == len(kids) - 1
